@@ -203,6 +203,8 @@ def renorm(t):
         return mk_ite(t[1], t[2], t[3])
     if tag == "not":
         return mk_not(t[1])
+    if tag == "cmp":
+        return mk_cmp(t[1], t[2], t[3])
     return t
 
 
@@ -480,6 +482,9 @@ def proj_sub(obj, idx):
             is_const(x) for x in idx[1:]) and not any(x[0] == "star" for x in obj[1]):
         s = slice(idx[1][1], idx[2][1], idx[3][1])
         return (obj[0], tuple(obj[1][s]))
+    if idx == ("slice", NONE, NONE, C(-1)):
+        # x[::-1] is the reversed sequence
+        return ("call", ("ext", "builtins.reversed"), (obj,), ())
     if obj[0] == "dict" and is_const(idx):
         for k, v in obj[1]:
             if k == idx:
@@ -616,6 +621,17 @@ def norm_call(f, args, kwargs, prog: Program | None = None):
                     kwargs[p] = a
                 if ok:
                     args = ()
+            elif star:
+                # bind the parameters that precede *args; surplus positionals stay positional
+                lead = []
+                for p in params:
+                    if p.startswith("*"):
+                        break
+                    lead.append(p)
+                if len(args) <= len(lead) and not any(p in kwargs for p in lead[:len(args)]):
+                    for p, a in zip(lead, args):
+                        kwargs[p] = a
+                    args = ()
             for k, dv in defaults.items():
                 if k in kwargs and kwargs[k] == dv:
                     del kwargs[k]
@@ -631,6 +647,13 @@ def norm_call(f, args, kwargs, prog: Program | None = None):
             return C(0 if q.endswith("zeros") else 1)
         if q in ("jax.numpy.array", "jax.numpy.asarray") and set(kwargs) == {"a"} and _num(kwargs["a"]) is not None:
             return kwargs["a"]
+        if q == "jax.numpy.shape" and set(kwargs) == {"a"} and kwargs["a"][0] not in ("const", "tuple", "list"):
+            return ("attr", kwargs["a"], "shape")
+        if q == "flowjax.wrappers.unwrap" and (set(kwargs) == {"tree"} or (len(args) == 1 and not kwargs)):
+            a0 = kwargs.get("tree") if kwargs else args[0]
+            # unwrapping the result of a jax.numpy call (a plain array) is the identity
+            if a0[0] == "call" and a0[1][0] == "ext" and a0[1][1].startswith("jax.numpy."):
+                return a0
         if q == "jax.numpy.matmul" and set(kwargs) == {"x1", "x2"}:
             return ("matmul", kwargs["x1"], kwargs["x2"])
         if q == "builtins.len" and len(args) == 1 and args[0][0] in ("tuple", "list") and not any(
@@ -930,16 +953,38 @@ class Interp:
                         return out
                     continue
                 e1, e2 = env.copy(), env.copy()
+                f0 = dict(self.self_fields) if self.self_fields is not None else None
                 self.path.append(test)
                 try:
                     o1 = self.exec_block(st.body, e1, ctx)
                 finally:
                     self.path.pop()
+                f1 = self.self_fields
+                if f0 is not None:
+                    self.self_fields = dict(f0)
                 self.path.append(mk_not(test))
                 try:
                     o2 = self.exec_block(st.orelse, e2, ctx)
                 finally:
                     self.path.pop()
+                if f0 is not None:
+                    # fields assigned under the branches: merge like local variables
+                    f2 = self.self_fields
+                    merged = dict(f0)
+                    live1, live2 = o1[0] != "raise", o2[0] != "raise"
+                    for kf in list(dict.fromkeys(list(f1) + list(f2))):
+                        v1, v2 = f1.get(kf, f0.get(kf)), f2.get(kf, f0.get(kf))
+                        if not live1:
+                            v1 = v2
+                        if not live2:
+                            v2 = v1
+                        if v1 is None or v2 is None:
+                            merged[kf] = v1 if v2 is None else v2
+                        elif v1 is v2 or same(v1, v2):
+                            merged[kf] = v1
+                        else:
+                            merged[kf] = mk_ite(test, v1, v2)
+                    self.self_fields = merged
                 rest = stmts[i + 1:]
                 if o1[0] == "fall" and o2[0] == "fall":
                     self.merge_env(env, test, e1, e2)
@@ -1158,6 +1203,7 @@ class Interp:
         for i, n in enumerate(carried):
             body_env.set(n, ("bv", d, 1 + i))
         self.depth += 1
+        n_guards = len(self.guards)
         try:
             try:
                 out = self.exec_block(st.body, body_env, ctx)
@@ -1165,6 +1211,13 @@ class Interp:
                 out = ("break",)
         finally:
             self.depth -= 1
+        # a guard met inside the loop body raises iff it holds for SOME element: any(test(e) for e in it)
+        for gi in range(n_guards, len(self.guards)):
+            g = self.guards[gi]
+            if g[0] == "raise-if" and isinstance(g[1], tuple) and free_bvs(g[1], d):
+                if not [i2 for i2 in free_bvs(g[1], d) if i2 >= 1]:
+                    anyt = ("call", ("ext", "builtins.any"), (("map", ("lam", 1, g[1], d), it),), ())
+                    self.guards[gi] = (g[0], anyt) + tuple(g[2:])
         if out[0] != "fall":
             why = f"{out[0]} inside for-loop"
             if out[0] == "raise":
@@ -1200,12 +1253,57 @@ class Interp:
             bodies = tuple(subst_free(new_vals[j], d, rn) for j in order)
             lam = ("lam", 1 + len(order), ("tuple", bodies), d)
             inits = tuple(init_vals[j] for j in order)
-            env.set(n, ("fold", it, lam, ("tuple", inits)))
+            simple = self._fold_as_map(it, bodies, inits, order, d)
+            env.set(n, simple if simple is not None else ("fold", it, lam, ("tuple", inits)))
         for n in local_only:
             env.set(n, ("unknown", f"loop-local {n} used after loop"))
 
+    @staticmethod
+    def _fold_as_map(it, bodies, inits, order, d):
+        """acc = []; for e in it: acc.append(f(e))            ==  [f(e) for e in it]
+           acc = []; for e in it: if c(e): acc.append(f(e))   ==  [f(e) for e in it if c(e)]"""
+        if len(order) != 1 or inits != (("list", ()),):
+            return None
+        acc = ("bv", d, 1)
+        b = bodies[0]
+
+        def app(x):
+            if x[0] == "call" and x[1] == ("ext", "list.append") and len(x[2]) == 2 and x[2][0] == acc \
+                    and 1 not in free_bvs(x[2][1], d):
+                return x[2][1]
+            return None
+        v = app(b)
+        if v is not None:
+            return ("map", ("lam", 1, v, d), it)
+        if b[0] == "ite" and 1 not in free_bvs(b[1], d):
+            v1, v2 = app(b[2]), app(b[3])
+            if v1 is not None and b[3] == acc:
+                return ("map", ("lam", 1, v1, d), ("filter", ("lam", 1, b[1], d), it))
+            if v2 is not None and b[2] == acc:
+                return ("map", ("lam", 1, v2, d), ("filter", ("lam", 1, mk_not(b[1]), d), it))
+        return None
+
     def as_term(self, v):
-        return v if isinstance(v, tuple) else self.reify(v)
+        if isinstance(v, tuple):
+            return self.eta(v)
+        return self.reify(v)
+
+    def eta(self, t):
+        """A reference to a (small, undecorated) repository function used as a value is replaced by its
+        lam reification, so that `is_leaf=_is_wrapper` and `is_leaf=lambda x: isinstance(x, Wrapper)` agree."""
+        if t and t[0] == "ext" and t[1].startswith("flowjax.") and self.inline_repo and t[1] not in self.no_inline \
+                and self.stack.count(t[1]) == 0 and self.inline_depth < MAX_INLINE:
+            r = self.prog.lookup(t[1])
+            if r and r[0] == "func" and not r[2].decorator_list and len(r[2].body) <= 6 \
+                    and not r[2].args.vararg and not r[2].args.kwarg:
+                self.stack.append(t[1])
+                try:
+                    lam = self.reify(Closure(r[2], Env(), (r[1], None, None), r[2].name))
+                finally:
+                    self.stack.pop()
+                if not has_unknown(lam):
+                    return lam
+        return t
 
     # ----------------------------------------------------------------- expressions
     def ev(self, node, env, ctx):
@@ -1534,6 +1632,8 @@ class Interp:
                 a0 = self.as_term(args[0])
                 if a0[0] in ("tuple", "list"):
                     return ("tuple" if q.endswith("tuple") else "list", a0[1])
+                if a0[0] == "call" and a0[1] == ("ext", "builtins.reversed"):
+                    return a0  # list(reversed(x)) / tuple(reversed(x)): the reversed sequence
             if q == "builtins.isinstance" and len(args) == 2:
                 a0 = self.as_term(args[0])
                 if a0[0] in ("tuple",) and self.as_term(args[1]) == ("ext", "builtins.tuple"):
@@ -1567,8 +1667,23 @@ class Interp:
                 return ("tuple", tuple(("tuple", (k, v)) for k, v in obj[1]))
             if name == "values" and obj[0] == "dict" and not args:
                 return ("tuple", tuple(v for k, v in obj[1]))
+        if isinstance(f, tuple) and f[0] == "ite":
+            # (g if c else h)(args) == g(args) if c else h(args)
+            return mk_ite(f[1], self.as_term(self.call(f[2], args, kwargs, ctx, node)),
+                          self.as_term(self.call(f[3], args, kwargs, ctx, node)))
         targs = [self.as_term(a) for a in args]
         tkw = {k: self.as_term(v) for k, v in kwargs.items()}
+        if isinstance(f, tuple) and f[0] == "ext" and f[1].startswith("operator.") and len(targs) == 2 and not tkw:
+            opn = f[1].split(".", 1)[1]
+            cm = {"ge": ">=", "gt": ">", "le": "<=", "lt": "<", "eq": "==", "ne": "!="}
+            if opn in cm:
+                return mk_cmp(cm[opn], targs[0], targs[1])
+            if opn == "add":
+                return mk_add(tuple(targs))
+            if opn == "mul":
+                return mk_mul(tuple(targs))
+            if opn == "sub":
+                return mk_add((targs[0], mk_neg(targs[1])))
         return norm_call(f, targs, tkw, self.prog)
 
     @staticmethod
